@@ -49,13 +49,16 @@ enum OpKind : uint8_t
     O_XMUT,  // xmut(e)
     O_VMUT,  // vmut(t,i)
     O_XDES,  // xdes(e)
+    // environment (C17): the k-th allocation of the NEXT operation fails (only in front of operations that promise to
+    // leave everything unchanged on failure: reserve, copy construction, construction); exploration goes on afterwards
+    O_FAIL,  // fail(k)
     O_KINDS
 };
 
 inline const char* const OP_NAMES[O_KINDS] = {"new", "def",  "eb",   "pb",   "er",   "err", "cl",  "rs",  "cc",  "ca",   "mc",   "ma",
                                               "sw",  "des",  "tcpy", "tcpa", "tswp", "tcmp", "rar", "rsw", "rot", "rev",  "swr",  "wp",
-                                              "xr",  "xcc",  "xmc",  "xca",  "xma",  "xsw", "xar", "rax", "xmut", "vmut", "xdes"};
-inline const int OP_ARITY[O_KINDS] = {6, 1, 3, 1, 2, 3, 1, 4, 2, 2, 2, 2, 2, 1, 1, 2, 2, 1, 4, 4, 4, 3, 4, 3, 5, 3, 3, 2, 2, 2, 4, 4, 1, 2, 1};
+                                              "xr",  "xcc",  "xmc",  "xca",  "xma",  "xsw", "xar", "rax", "xmut", "vmut", "xdes", "fail"};
+inline const int OP_ARITY[O_KINDS] = {6, 1, 3, 1, 2, 3, 1, 4, 2, 2, 2, 2, 2, 1, 1, 2, 2, 1, 4, 4, 4, 3, 4, 3, 5, 3, 3, 2, 2, 2, 4, 4, 1, 2, 1, 1};
 
 struct Op
 {
